@@ -139,10 +139,12 @@ pub struct Gen<Op> {
     pub expect_seq: Option<Vec<u32>>,
     /// remove contexts used (clock, is it for a top-level element) for C07's "rm ctx dots are update dots"
     pub rm_ctxs: Vec<Clk>,
+    /// the dot the op itself reports through its public accessor (List ops)
+    pub op_dot: Option<DotT>,
 }
 impl<Op> Gen<Op> {
     pub fn new(op: Op, desc: String) -> Self {
-        Gen { op, facts: vec![], desc, want_dot: None, derived: None, rf_vals: vec![], expect_seq: None, rm_ctxs: vec![] }
+        Gen { op, facts: vec![], desc, want_dot: None, derived: None, rf_vals: vec![], expect_seq: None, rm_ctxs: vec![], op_dot: None }
     }
 }
 
